@@ -158,6 +158,54 @@ func ruleCL2(c *Ctx) *rule {
 			}
 		}
 	}
+	// a removal that is only made when os.Stat succeeds on the path skips what Stat cannot resolve: a dangling symbolic link
+	for _, s := range c.removalSinks() {
+		if !s.cond["opt:Clean=true"] {
+			continue
+		}
+		in, isIn := s.site.(ssa.Instruction)
+		if !isIn {
+			continue
+		}
+		statSucceeded := func(g guard) bool {
+			x, nonNilWhenTrue, isTest := errNilTest(g.cond)
+			if !isTest || nonNilWhenTrue == g.pol {
+				return false // not "the error is nil"
+			}
+			ex, isEx := x.(*ssa.Extract)
+			if !isEx {
+				return false
+			}
+			call, isCall := ex.Tuple.(*ssa.Call)
+			return isCall && calleeName(call.Common()) == "os.Stat"
+		}
+		for _, g := range c.info(in.Parent()).necessaryGuards(in.Block()) {
+			hit := statSucceeded(g)
+			if call, isCall := g.cond.(*ssa.Call); isCall && !hit {
+				// a module predicate (`exists(path)`): the ways it returns the value this edge needs
+				if pred := call.Common().StaticCallee(); pred != nil && inModule(pred) && len(pred.Blocks) > 0 {
+					sets := c.resultGuardSets(pred, g.pol)
+					all := len(sets) > 0
+					for _, gs := range sets {
+						one := false
+						for _, pg := range gs {
+							if statSucceeded(pg) {
+								one = true
+							}
+						}
+						if !one {
+							all = false
+						}
+					}
+					hit = all
+				}
+			}
+			if !hit {
+				continue
+			}
+			r.bad(fname(in.Parent())+" removal guarded by os.Stat", c.ipos(in), "the removal is only made when os.Stat succeeds on the path: os.Stat follows symbolic links, so a declared output that is a dangling link (or a link into an output removed a moment earlier) is skipped and left behind (os.Lstat tests the entry itself)")
+		}
+	}
 	pos := "?"
 	if at != nil {
 		pos = c.ipos(at)
